@@ -451,6 +451,44 @@ func (w *world) doOp(op cOp) {
 			ids, blks = append(ids, p.WorkID), append(blks, uint64(p.Trigger.BlockNumber))
 		}
 		w.emit(fmt.Sprintf("(%s, OFProp %s, RL %s)", now, CoqList(op.Items, c.coqItem), w.itemsOut(ids, blks, op.Items)))
+		if op.Kind == "hookprop" {
+			// the same hooks with the production limits (5 per trigger type): whatever they select must still be allowed by
+			// the coordinator - recorded as "filtering exactly the selected proposals keeps every one of them"
+			ms, err := stores.NewMetadataStore(NewFakeBlocks(), simutil.GetUpkeepType)
+			if err != nil {
+				w.t.Fatal(err)
+			}
+			ms.AddProposals(ps...)
+			obs := &ocr2keepers.AutomationObservation{}
+			l1 := hooks.NewAddLogProposalsHook(ms, w.coord, w.logger)
+			l2 := hooks.NewAddConditionalProposalsHook(ms, w.coord, w.logger)
+			if err := l1.RunHook(obs, ocr2keepers.ObservationLogRecoveryProposalsLimit, [16]byte{4, 5}); err != nil {
+				w.t.Fatal(err)
+			}
+			if err := l2.RunHook(obs, ocr2keepers.ObservationConditionalsProposalsLimit, [16]byte{4, 5}); err != nil {
+				w.t.Fatal(err)
+			}
+			lim := obs.UpkeepProposals
+			sortByInput(lim, func(p common.CoordinatedBlockProposal) string { return p.WorkID }, op.Items, c)
+			var sub []cItem
+			used := make([]bool, len(op.Items))
+			var lids []string
+			var lblks []uint64
+			for _, p := range lim {
+				lids, lblks = append(lids, p.WorkID), append(lblks, uint64(p.Trigger.BlockNumber))
+				for j, it := range op.Items {
+					if !used[j] && c.workID(it.W) == p.WorkID && it.Blk == uint64(p.Trigger.BlockNumber) {
+						used[j] = true
+						sub = append(sub, it)
+						break
+					}
+				}
+			}
+			if len(sub) != len(lim) {
+				sub = op.Items // a foreign element: let itemsOut flag it
+			}
+			w.emit(fmt.Sprintf("(%s, OFProp %s, RL %s)", now, CoqList(sub, c.coqItem), w.itemsOut(lids, lblks, sub)))
+		}
 	default:
 		w.t.Fatalf("unknown op kind %q", op.Kind)
 	}
@@ -781,6 +819,22 @@ func boundary() []cCase {
 	cs = append(cs, cCase{Family: "plugin-accept-every-position-all-recorded", WindowMs: 20000, MinConf: 0, Plugin: true, Ws: five, Ops: accOps})
 	cs = append(cs, cCase{Family: "plugin-accept-last-upkeep-recorded", WindowMs: 20000, MinConf: 0, Plugin: true, Ws: three, Ops: []cOp{
 		flt("acceptrep", cItem{0, 10}, cItem{1, 10}, cItem{2, 10}), acc(2, 9), acc(1, 9), tr(2, 10), flt("acceptrep", cItem{0, 10}, cItem{2, 11}), acc(2, 10), tr(2, 11)}})
+	// more proposals of one trigger type than an observation takes (5): the cut must be taken from what the coordinator
+	// let through, whichever position the withheld unit has in the store's key order
+	var many []cWid
+	var manyItems []cItem
+	for k := 0; k < 9; k++ {
+		many = append(many, cWid{Type: 1, N: 40 + k})
+		manyItems = append(manyItems, cItem{k, 10})
+	}
+	for k := 0; k < 7; k++ {
+		many = append(many, cWid{Type: 0, N: 60 + k})
+		manyItems = append(manyItems, cItem{9 + k, 10})
+	}
+	for w := 0; w < 16; w++ {
+		cs = append(cs, cCase{Family: "hook-limit-many-proposals", WindowMs: 20000, MinConf: 1, Ws: many, Ops: []cOp{
+			acc(w, 10), flt("hookprop", manyItems...), evs(1, ev(w, 70+w, 1, 10, 11, 1)), sl(2 * sec), flt("hookprop", manyItems...)}})
+	}
 	cs = append(cs, cCase{Family: "plugin-restart", WindowMs: 3000, MinConf: 1, Plugin: true, Ws: three, Ops: []cOp{
 		flt("acceptrep", cItem{0, 5}, cItem{1, 5}), tr(0, 5), {Kind: "restart"}, flt("transmitrep", cItem{0, 5}, cItem{1, 5}), flt("acceptrep", cItem{1, 5}), flt("transmitrep", cItem{0, 5}, cItem{1, 5})}})
 	return cs
